@@ -126,7 +126,8 @@ Base2 == << "rule", "name", "{", "when", "bool", "then", "name", "asg", "wideint
 Base3 == << "rule", "name", "salience", "int", "{", "when", "(", "name", "cmp", "-", "int", ")", "and", "(", "!", "!", "name", ")",
             "then", "name", ".", "name", "(", "int", ",", "str", ")", ".", "name", "(", ")", ";",
             "name", ".", "name", "[", "name", ".", "name", "]", ".", "name", "asg", "str", ".", "name", "(", ")", ";", "}" >>
-Bases == <<Base1, Base2, Base3>>
+Base4 == SubSeq(Base2, 1, 11) \o Base3          \* a rule without salience, then one with a salience clause
+Bases == <<Base1, Base2, Base3, Base4>>
 
 Del(t, i) == SubSeq(t, 1, i - 1) \o SubSeq(t, i + 1, Len(t))
 Rep(t, i, k) == [t EXCEPT ![i] = k]
@@ -139,8 +140,15 @@ Mk(b, m, i, t) == case = [fam |-> "grammar", base |-> b, mut |-> m, at |-> i, to
                           rules |-> IF Grammatical(t) THEN [k \in DOMAIN Headers(G(t), 1) |->
                                        LET h == Headers(G(t), 1)[k] IN [nameAt |-> h.nameAt, desc |-> h.desc, descAt |-> h.descAt, sal |-> h.sal, salAt |-> h.salAt]]
                                     ELSE <<>>]
-CONSTANT BaseIds
-Init == \E b \in BaseIds : LET base == Bases[b] IN
+CONSTANTS BaseIds,
+          Double       \* thorough tier: two mutations in one document - one that makes the builder give up on the FIRST rule
+                       \* (and may leave its internal state half way), one in a LATER rule
+Stoppers == {"bad", "badstr", "escstr", "dqstr", "bigint", "(", "}", "samename"}
+Laters == {"wideint", "bigint", "int", "escstr", "samename", "str", "name", "float"}
+InitDouble == \E b \in {2, 4} : LET base == Bases[b] IN
+                \E i \in 1..11, k1 \in Stoppers, j \in 12..Len(base), k2 \in Laters :
+                   Mk(b, "double", i * 100 + j, Rep(Rep(base, i, k1), j, k2))
+Init == IF Double THEN InitDouble ELSE \E b \in BaseIds : LET base == Bases[b] IN
           \/ Mk(b, "none", 0, base)
           \/ \E i \in 1..Len(base) : Mk(b, "delete", i, Del(base, i)) \/ Mk(b, "duplicate", i, Dup(base, i))
           \/ \E i \in 1..Len(base), k \in Kinds : Mk(b, "replace", i, Rep(base, i, k))
